@@ -173,7 +173,8 @@ def forest_validity(model):
         u = v.get("uid")
         if isinstance(u, str):
             if u in uids:
-                worst = (UNSPEC, "duplicate-uid")
+                # UIDs are unique in a forest; the writer is anchored to refuse a UID it has already emitted
+                return INVALID, "forest:duplicate-uid"
             uids[u] = vid
     return worst
 
@@ -284,6 +285,12 @@ class CIMachine(FormatMachine):
 
     def new_obj(self):
         return self.mods().ComposeInfo()
+
+    def prop_for_invalid(self, why):
+        # C11: "UIDs are unique" - in a C11 run a forest with a duplicate UID that gets written is reported there
+        if why.startswith("forest:duplicate-uid") and self.cfg.get("focus") == "C11":
+            return "C11"
+        return "C06"
 
     def observe(self, obj):
         return observe_ci(obj)
